@@ -85,7 +85,7 @@ def run_one(patch, pid, tier="quick", seed="1"):
     for l in viol[:4]:
         print("      ", l[:260])
     if res.startswith("MISSED"):
-        print("\n".join("       " + l for l in out.splitlines()[-12:]))
+        print("\n".join("       " + l for l in out.splitlines()[-int(os.environ.get("SELFTEST_TAIL", "12")):]))
     return res
 
 def main():
